@@ -55,7 +55,7 @@ int snoopy_datasource_timestamp (char * const resultBuf, size_t resultBufSize, _
 
     retVal = gettimeofday(&tv, NULL);
     if (0 == retVal) {
-        return snprintf(resultBuf, resultBufSize, "%d", (int) tv.tv_sec);
+        return snprintf(resultBuf, resultBufSize, "%lld", (long long) tv.tv_sec);
     } else {
         return snprintf(resultBuf, resultBufSize, "(error: %d)", errno);
     }
